@@ -70,7 +70,7 @@ impl GrammarSys {
             timeout,
             timeout_us: timeout.saturating_mul(1000),
             cap: cap_for(timeout, 1),
-            pauses: vec![(1 << 16) - 2, 1 << 20, 1 << 32],
+            pauses: if WRAP16.load(std::sync::atomic::Ordering::Relaxed) { vec![(1 << 16) - 2, 1 << 20, 1 << 32] } else { vec![1 << 20, 1 << 32] },
             values: values.to_vec(),
             others: noncontrib_small::<PollingParameterNumberMessageScanner>(ch),
         }
@@ -199,6 +199,14 @@ impl System for GrammarSys {
         set_now_millis(0);
         GState { sc: PollingParameterNumberMessageScanner::new(Duration::from_micros(self.timeout_us)), now: 0, g: G::Start }
     }
+    fn actions_at(&self, s: &GState, depth: u32, out: &mut Vec<GAct>) {
+        self.actions(s, out);
+        if depth <= PAUSE_DEPTH {
+            for i in 0..self.pauses.len() {
+                out.push(GAct::Pause(i as u8));
+            }
+        }
+    }
     fn actions(&self, s: &GState, out: &mut Vec<GAct>) {
         for &c in &[98u8, 99, 100, 101, 6, 38, 96, 97] {
             for &v in &self.values {
@@ -214,9 +222,6 @@ impl System for GrammarSys {
             out.push(GAct::Poll);
         }
         out.push(GAct::Tick);
-        for i in 0..self.pauses.len() {
-            out.push(GAct::Pause(i as u8));
-        }
     }
     fn step(&self, s: &GState, a: &GAct) -> Step<GState> {
         let mut v = Vec::new();
@@ -249,8 +254,8 @@ impl System for GrammarSys {
         let mut g = s.g;
         if let G::Sel { msb, lsb, reg, phase } = g {
             let phase = match phase {
-                Phase::PendMsb(a, since) => Phase::PendMsb(a, (s.now - since).min(self.cap)),
-                Phase::PendLsb(a, since) => Phase::PendLsb(a, (s.now - since).min(self.cap)),
+                Phase::PendMsb(a, since) => Phase::PendMsb(a, canon_age(s.now - since, self.cap)),
+                Phase::PendLsb(a, since) => Phase::PendLsb(a, canon_age(s.now - since, self.cap)),
                 p => p,
             };
             g = G::Sel { msb, lsb, reg, phase };
